@@ -22,22 +22,25 @@ Local Open Scope Z_scope.
 Definition EWOULDBLOCK := 11.
 
 (* the result of futex_wait is the kernel's choice in gstep; the recording says what it was:
-   rc = 0 means woken by FUTEX_WAKE: the model must have woken the thread;
-   if the model saw a different generation when the thread called futex_wait, so did the kernel later (EWOULDBLOCK) *)
-Definition kernel_ok (s : gst) (t : Z) (e : event) : bool :=
+   if the model saw a different generation when the thread called futex_wait, so did the kernel later (EWOULDBLOCK);
+   strict mode: rc = 0 means woken by FUTEX_WAKE, so the model must have woken the thread.  The FUTEX_WAKE note is written
+   before the system call: where in [note, the waker's next event] the wake took effect is not recorded, and the order the
+   checker proposes may place it wrongly; a round that does not replay in strict mode is replayed again without this one
+   requirement (a futex_wait may then return 0 while the model still has the thread asleep: a spurious return in the model) *)
+Definition kernel_ok (strict : bool) (s : gst) (t : Z) (e : event) : bool :=
   match pcs s t with
   | PSleep _ _ =>
       match slp s t with
       | NoSleep => eb e =? EWOULDBLOCK
-      | Sleeping => negb (eb e =? 0)
+      | Sleeping => negb strict || negb (eb e =? 0)
       | Woken => true
       | Awake => false
       end
   | _ => true
   end.
 
-Definition try_ev (s : gst) (t : Z) (e : event) : option gst :=
-  if kernel_ok s t e then gstep s t e else None.
+Definition try_ev (strict : bool) (s : gst) (t : Z) (e : event) : option gst :=
+  if kernel_ok strict s t e then gstep s t e else None.
 
 Definition queues := list (Z * list event).
 Fixpoint lookup (t : Z) (qs : queues) : list event :=
@@ -48,17 +51,17 @@ Fixpoint remove_first (t : Z) (l : list Z) : list Z :=
   match l with [] => [] | x :: r => if x =? t then r else x :: remove_first t r end.
 
 (* among the first w entries of the preferred order: the first thread whose next event the model accepts *)
-Fixpoint pick (s : gst) (qs : queues) (ord : list Z) (seen : list Z) (w : nat) : option (Z * gst) :=
+Fixpoint pick (strict : bool) (s : gst) (qs : queues) (ord : list Z) (seen : list Z) (w : nat) : option (Z * gst) :=
   match w, ord with
   | O, _ | _, [] => None
   | S w', t :: r =>
-      if existsb (Z.eqb t) seen then pick s qs r seen w'
+      if existsb (Z.eqb t) seen then pick strict s qs r seen w'
       else match lookup t qs with
-           | e :: _ => match try_ev s t e with
+           | e :: _ => match try_ev strict s t e with
                        | Some s' => Some (t, s')
-                       | None => pick s qs r (t :: seen) w'
+                       | None => pick strict s qs r (t :: seen) w'
                        end
-           | [] => pick s qs r (t :: seen) w'
+           | [] => pick strict s qs r (t :: seen) w'
            end
   end.
 
@@ -83,6 +86,7 @@ Definition observe (s : gst) (t rem : Z) (acc : obsacc) : obsacc :=
 Section Sched.
   Variable chk : gst -> bool.
   Variable period : Z.
+  Variable strict : bool.
   Fixpoint sched (fuel : nat) (w : nat) (s : gst) (qs : queues) (ord : list Z) (done bad : Z) (acc : obsacc)
     : gst * queues * Z * Z * list Z * obsacc :=
     match fuel with
@@ -90,7 +94,7 @@ Section Sched.
     | S f =>
         match ord with
         | [] => (s, qs, done, bad, [], acc)
-        | _ => match pick s qs ord [] w with
+        | _ => match pick strict s qs ord [] w with
                | Some (t, s') =>
                    (* nested ifs: vm_compute evaluates the arguments of && eagerly, chk must only run on the chosen states *)
                    let bad' := if bad =? -1 then (if (done + 1) mod period =? 0 then (if chk s' then bad else done + 1) else bad)
@@ -116,9 +120,9 @@ Definition all_fired (s : gst) : bool := forallb (fun i => fcnt s i =? 1) (zrang
     or -1; chk on the final state; first blocked thread in the preferred order or -1] followed by the number of events each
    thread has left *)
 (* the window is the whole preferred order: every thread's next event is considered, earliest stamp first *)
-Definition replay (chk : list Z -> gst -> bool) (period : Z) (qs : queues) (ord : list Z) : list Z :=
+Definition replay (chk : list Z -> gst -> bool) (period : Z) (strict : bool) (qs : queues) (ord : list Z) : list Z :=
   let tids := map fst qs in
-  let '(s, qs', done, bad, rest, acc) := sched (chk tids) period (S (length ord)) (length ord) init_state qs ord 0 (-1) ([], []) in
+  let '(s, qs', done, bad, rest, acc) := sched (chk tids) period strict (S (length ord)) (length ord) init_state qs ord 0 (-1) ([], []) in
   [done; Z.of_nat (length rest); word s; gfull s; outst s; nreg s; Z.of_nat (length (nq s)); b2z (all_idle s tids);
    b2z (none_asleep s tids); b2z (all_fired s); b2z (early s); bad; b2z (chk tids s);
    match rest with t :: _ => t | [] => -1 end] ++ map (fun q => Z.of_nat (length (snd q))) qs' ++ [-9999] ++ snd acc.
